@@ -62,7 +62,15 @@ fn gen_rule(rng: &mut Rng) -> Expr {
         3 => Expr::Vec(vec![call(rng), call(rng), call(rng)]),
         4 => Expr::iif(Expr::eq(call(rng), call(rng)), call(rng), Expr::value(0)),
         5 => Expr::or(Expr::some(call(rng)), Expr::value(true)),
-        6 => Expr::add(Expr::reff("a"), Expr::value(1)),
+        6 => match rng.below(6) {
+            0 => Expr::add(Expr::reff("a"), Expr::value(1)),
+            // strict binary operators over two calls (either of which may fail or suspend): still left to right, one after the other
+            1 => Expr::add(call(rng), call(rng)),
+            2 => Expr::lt(call(rng), call(rng)),
+            3 => Expr::contains(Expr::Vec(vec![call(rng)]), call(rng)),
+            4 => Expr::bitwise_and(call(rng), Expr::mult(call(rng), call(rng))),
+            _ => Expr::eq(Expr::add(call(rng), call(rng)), call(rng)),
+        },
         _ => {
             let mut m = BTreeMap::new();
             m.insert("z".to_string(), call(rng));
